@@ -90,6 +90,9 @@ func (e *Engine) intrinsic(fn *ssa.Function, args []Value) (Value, bool) {
 	if v, ok := e.cryptoIntrinsic(fn, full, args); ok {
 		return v, true
 	}
+	if v, ok := e.urlIntrinsic(fn, full, args); ok {
+		return v, true
+	}
 	return nil, false
 }
 
